@@ -416,7 +416,46 @@ func (x *Exec) eval(e ast.Expr, st *State, sp *SpecCtx) Value {
 		}
 		return Value{T: x.typeOf(e, sp), Fn: &Closure{Lit: e, Unit: cu}}
 	case *ast.SliceExpr:
-		// s[a:b]: abstracted (fresh slice); strings likewise
+		// a substring is a function of the string and its bounds (uninterpreted; -1 = bound not written): two
+		// evaluations of s[a:b] on the same s agree, nothing else is known about it
+		isStr := false
+		if tx := x.typeOf(e.X, sp); tx != nil {
+			if bt, ok := tx.Underlying().(*types.Basic); ok && bt.Info()&types.IsString != 0 {
+				isStr = true
+			}
+		} else if sp != nil {
+			// spec expression (not type-checked by go/types): decided by the sort of the value
+			if v := x.eval(e.X, st, sp); v.Term != nil && v.Term.S.K == SStr {
+				isStr = true
+			}
+		}
+		if isStr && !e.Slice3 {
+			sv := x.eval(e.X, st, sp)
+			lo, hi := IntLit(-1), IntLit(-1)
+			okB := true
+			if e.Low != nil {
+				if v := x.eval(e.Low, st, sp); v.Term != nil && v.Term.S.K == SInt {
+					lo = v.Term
+				} else {
+					okB = false
+				}
+			}
+			if e.High != nil {
+				if v := x.eval(e.High, st, sp); v.Term != nil && v.Term.S.K == SInt {
+					hi = v.Term
+				} else {
+					okB = false
+				}
+			}
+			if okB && sv.Term != nil && sv.Term.S.K == SStr {
+				rt := x.typeOf(e, sp)
+				if rt == nil {
+					rt = types.Typ[types.String]
+				}
+				return Value{T: rt, Term: App("str_slice", StrS, sv.Term, lo, hi)}
+			}
+		}
+		// other slices: abstracted (fresh slice)
 		x.abstract("slice expression")
 		return x.freshValue("slice", x.typeOf(e, sp), st)
 	case *ast.TypeAssertExpr:
